@@ -187,7 +187,7 @@ func (e *Engine) checkHeader(fn *ssa.Function, c *Contract) {
 			e.unsupported("contract header of %s does not match the function (arity)", c.Key)
 		}
 		for i, p := range g.Params {
-			if !types.Identical(p.Type(), real[i]) {
+			if !types.Identical(p.Type(), real[i]) && !(c.TypeParams != "" && types.TypeString(p.Type(), nil) == types.TypeString(real[i], nil)) {
 				e.unsupported("contract header of %s: parameter %d has type %s, function has %s", c.Key, i, p.Type(), real[i])
 			}
 		}
